@@ -139,6 +139,42 @@ def gen_history(rng, maxlen, loads=False):
     return " ".join(out)
 
 
+
+def gen_context_history(rng, maxlen):
+    """Context mode (one VmContext re-used the way nickel::Context::with_vm does): files written to
+    a scratch directory on the import path, then budgeted evaluations of terms importing them."""
+    out = []
+    nfiles = rng.range(1, 3)
+    files = []
+    for i in range(nfiles):
+        name = "f%d" % (i + 1)
+        env = [("a", "num")]
+        a = gen(rng, [], "num", rng.range(1, 2))
+        if files and rng.chance(1, 2):
+            a = "(add %s (proj (imp %s) %s))" % (a, rng.choice(files), rng.choice(["a", "b"]))
+        b = gen(rng, env, "num", rng.range(1, 2))
+        fields = ["(a %s)" % a, "(b (add (v a) %s))" % b]
+        if rng.chance(1, 3):
+            fields.append("(c %s)" % bad(rng, [], 1))
+        out.append("(file %s (rec %s))" % (name, " ".join(fields)))
+        files.append(name)
+    for _ in range(rng.range(2, maxlen)):
+        f = rng.choice(files)
+        c = rng.below(100)
+        if c < 45:
+            t = "(proj (imp %s) %s)" % (f, rng.choice(["a", "b", "b", "c", "zz"]))
+        elif c < 70:
+            t = "(add (proj (imp %s) b) %s)" % (f, gen(rng, [], "num", 1))
+        elif c < 85:
+            t = "(imp %s)" % f
+        else:
+            t = "(let r (imp %s) (add (proj (v r) a) (proj (v r) b)))" % f
+        out.append("(%s %s %s)" % ("full" if rng.chance(1, 3) else "eval", budget(rng), t))
+    for f in files:
+        out.append("(eval inf (add (proj (imp %s) a) (proj (imp %s) b)))" % (f, f))
+    return " ".join(out)
+
+
 # Exhaustive enumeration: every history starts with the PRELUDE (so that every input below is
 # well-scoped), then ALL sequences of length <= n over the 8-input alphabet: re-definitions (one
 # depending on the previous value, one capturing the current x, one failing), evaluations abandoned
@@ -238,8 +274,16 @@ def compare(ck, mode, cases, impl_out, model_out, spec_out):
             if "Panic" in s or "Panic" in o:
                 ck.violation("panic:" + kind, "evaluation panicked in a session", {"case": case, "mode": mode, "input": j, "impl": a})
                 continue
+            unlimited = inp.split(" ", 2)[1] == "inf" if kind in ("eval", "full", "query", "load", "spine") else False
             if o == "-" :
                 pass
+            elif s == "ERR Budget" and unlimited and o != "ERR Budget":
+                # memoisation can only save steps: with the unlimited budget the session must
+                # terminate whenever the fresh program does
+                ck.violation("session-diverges:%s" % mode,
+                             "input %d `%s` exhausts the unlimited budget in the session but gives `%s` as a stand-alone program" % (j, inp, o),
+                             {"case": case, "mode": mode, "input": j, "session": sess, "oracle": orac})
+                continue
             elif s == "ERR Budget" or o == "ERR Budget":
                 ck.count(mode + ":inconclusive_budget")
             elif s != o:
@@ -262,7 +306,10 @@ def compare(ck, mode, cases, impl_out, model_out, spec_out):
                 if m != s:
                     ck.obligation("correspondence:model-vs-repl", "correspondence", False, "case %s\ninput %d impl %s model %s" % (case, j, s, m))
                 continue
-            if m == "ERR Budget" or s == "ERR Budget":
+            if s == "ERR Budget" and unlimited and m != "ERR Budget":
+                ck.obligation("correspondence:model-vs-repl", "correspondence", False,
+                              "case %s\ninput %d `%s`: the model terminates (%s) within %d steps, the implementation exhausts its unlimited budget" % (case, j, inp, m, 5000))
+            elif m == "ERR Budget" or s == "ERR Budget":
                 ck.count(mode + ":model_inconclusive_budget")
             elif m != s:
                 ck.obligation("correspondence:model-vs-repl", "correspondence", False,
@@ -292,7 +339,7 @@ def compare(ck, mode, cases, impl_out, model_out, spec_out):
 def run_stream(ck, mode, cases, exe_impl, exe_model, with_model=True):
     if not cases:
         return
-    args = ["program"] if mode == "program" else []
+    args = ["program"] if mode == "program" else (["context"] if mode == "context" else [])
     rc1, impl_out, e1 = core.run_sharded(exe_impl, args, cases, timeout=3000)
     model_out = spec_out = None
     rc2 = rc3 = 0
@@ -325,7 +372,12 @@ def program_cases(cases):
         seq = []
         for n, i in evals:
             k = i.split(" ", 2)[1]
-            seq.append("(%s %s %s)" % (key_of(i), k, body))
+            kind = key_of(i)
+            # every third budgeted evaluation becomes a (budgeted) eval_record_spine: exercises the
+            # lock/unlock protocol of eval_guarded before the later evaluations
+            if k != "inf" and (n + len(body)) % 3 == 0:
+                kind = "spine"
+            seq.append("(%s %s %s)" % (kind, k, body))
         out.append(" ".join(defs + seq))
     return out
 
@@ -344,7 +396,7 @@ def run(ck):
     ex = exhaustive(2 if quick else 4)
     ck.coverage["exhaustive_histories"] = "%d histories: prelude + all sequences of length <= %d over the %d-input alphabet + probes" % (len(ex), 2 if quick else 4, len(ALPHABET))
     cases += ex
-    n = 400 if quick else 12000
+    n = 300 if quick else 12000
     for i in range(n):
         cases.append(gen_history(rng.fork(), 6 if rng.chance(3, 4) else 12))
     run_stream(ck, "repl", cases, exe_impl, exe_model)
@@ -353,13 +405,16 @@ def run(ck):
     lcases = [c for c in lcases if "(load" in c]
     run_stream(ck, "repl-load", lcases, exe_impl, exe_model, with_model=False)
     # 3. one Program evaluated repeatedly (budgeted, then unlimited): direct oracle only
-    pcases = program_cases(cases[len(corpus()) + len(ex):][: (150 if quick else 4000)] + ex[: (60 if quick else 1500)])
+    pcases = program_cases(cases[len(corpus()) + len(ex):][: (120 if quick else 4000)] + ex[: (40 if quick else 1500)])
     run_stream(ck, "program", pcases, exe_impl, exe_model, with_model=False)
-    ck.coverage["traces_validated_against_impl"] = len(cases) + len(lcases) + len(pcases)
+    # 4. one VmContext re-used for several sources importing the same files (nickel::Context)
+    ccases = [gen_context_history(rng.fork(), 6) for _ in range(80 if quick else 3000)]
+    run_stream(ck, "context", ccases, exe_impl, exe_model, with_model=False)
+    ck.coverage["traces_validated_against_impl"] = len(cases) + len(lcases) + len(pcases) + len(ccases)
     ck.coverage["rule"] = ("history = sequence of REPL inputs (def / eval / full / query, each with a step budget K of hook H1 or unlimited; "
                            "K small = evaluation abandoned mid-way) generated from SplitMix64(VERIF_SEED): typed term generator with ~6% failing/ill-typed/diverging nodes, "
                            "followed by probes re-evaluating every definition; non-trivial = >= 3 inputs and at least one failed or abandoned input; distinct by text")
-    ck.coverage["partial"] = "`:load` and Program re-evaluation are checked by the direct oracle only (not in the Coq model)"
+    ck.coverage["partial"] = "`:load`, Program re-evaluation (incl. eval_record_spine) and the re-used VmContext with imports are checked by the direct oracle only (not in the Coq model)"
     ck.trusted += ["extraction: ExtrOcamlBasic + ExtrOcamlNativeString", "harness bin c12 (s-expression -> Nickel printer)", "generator checks/c12.py"]
     ck.assumptions += ["hook H1 (step budget) aborts the evaluation loop exactly like any other evaluation error"]
 
@@ -370,4 +425,4 @@ def replay(ck, path):
     exe_model = ck.model("C12.v")
     if ok and exe_model and "case" in obj:
         mode = obj.get("mode", "repl")
-        run_stream(ck, mode, [obj["case"]], core.harness_bin("c12"), exe_model, with_model=(mode == "repl"))
+        run_stream(ck, mode if mode in ("program", "context") else "repl", [obj["case"]], core.harness_bin("c12"), exe_model, with_model=(mode == "repl"))
